@@ -141,6 +141,7 @@ type Sweep struct {
 	Offset  int    `json:"offset"`
 	Reflect int    `json:"reflect"` // number of reflect-created types mixed in
 	Limit   int    `json:"limit,omitempty"`
+	Phased  bool   `json:"phased,omitempty"` // encode all types, then decode all, then encode all again
 	Only    []int  `json:"only,omitempty"` // explicit type indices (replay/shrink/cold reference)
 	OnlyR   []int  `json:"only_r,omitempty"` // explicit reflect-created type indices (cold reference)
 	Exclude []int  `json:"exclude,omitempty"` // types that die even alone in a fresh process (filled by the driver)
